@@ -71,7 +71,7 @@ def index_recipe(rng, rows, dtype=None, mode=None):
     """A 1-D index channel: uniform / near-uniform / monotone / constant / noisy."""
     dt = dtype or pick(rng, ['f8', 'f8', 'f4', 'i4', 'i2', 'u2', 'u4', 'u1', 'i1'])
     bo = '|' if SIZES[dt] == 1 else ('>' if rng.random() < 0.2 else '<')
-    mode = mode or pick(rng, ['uniform', 'uniform', 'uniform_dec', 'near', 'mono', 'mono_dec', 'const', 'noisy'])
+    mode = mode or pick(rng, ['uniform', 'uniform', 'uniform_dec', 'near', 'mono', 'mono_dec', 'const', 'noisy', 'edge'])
     isint = dt[0] in 'iu'
     step = rng.choice([1, 2, 5]) if isint else rng.choice([0.5, 0.25, 1.0, 0.1524, 10.0])
     start = rng.randint(0, 20) if isint else rng.choice([0.0, 100.0, 2500.5, -30.0])
@@ -80,6 +80,18 @@ def index_recipe(rng, rows, dtype=None, mode=None):
         if dt[0] == 'u' or dt == 'i1':
             start = step * rows + rng.randint(0, 5)
         step = -step
+    if mode == 'edge':
+        # one sample displaced so that the squared relative deviation of the differences from their median lies just below or
+        # just above the library's documented limit of 0.001 (relative displacement ~3.16 %)
+        if SIZES[dt] == 1:
+            mode = 'uniform'
+        elif isint:
+            step = rng.choice([30, 31, 33, 34, 40]) * (1 if step > 0 else -1)
+            jit = [0, 1, 0, 0, 0]
+            if step < 0:
+                start = abs(step) * rows + 5
+        else:
+            jit = [0, step * rng.choice([0.03, 0.031, 0.0322, 0.034]), 0, 0, 0]
     if mode == 'near' and not isint:
         jit = [0, step * 1e-4, -step * 2e-4, 0, step * 3e-4]
     elif mode in ('mono', 'mono_dec'):
@@ -293,7 +305,7 @@ def write_op(spec, path='out.dlis', ics=None, ocs=None, **kw):
 
 
 def ics_choices(rng, rows):
-    c = [1, None, rows, rows + 3]
+    c = [1, None, rows, rows + 3, rows + 1]
     if rows > 1:
         c += [rows - 1, max(rows // 2, 1), 2]
         c += [d for d in range(2, rows) if rows % d == 0][:2]
